@@ -24,7 +24,7 @@ CLAIMED = {
              "the documented CIDR-range / prefix / bitwise-mask condition holds, malformed fields never match, and an IPv4 peer gets the "
              "same verdict as a.b.c.d and as ::ffff:a.b.c.d for every rule list; early enforcement rests on regenerated call-order facts "
              "of core.rs; tied by a differential run of the public RulesEngine and the evaluate_connection_rules door against the "
-             "extracted model and an independent documentation oracle",
+             "extracted model and an independent documentation oracle; the rules are also exercised at the endpoint's real listener (Core::listen on a loopback port): TLS connections whose client random is read off the wire, and QUIC connections, must be admitted exactly when the documented verdict for (127.0.0.1, that random) is allow",
         note="trusted: Coq kernel, Model/Rules.v, translator facts (RulesFacts.v), extraction + driver, harness; IpNet/hex parsing is library "
              "code covered by the text-rendering diff; TLS/QUIC accept I/O not driven",
         design="DESIGN.md 5 C04"),
@@ -42,7 +42,7 @@ CLAIMED = {
              "request stream is segmentation invariant, 7.4 reply layout, parsers total, and the reply-waiter state machine delivers "
              "only to the requester, once, forgets expired requests; tied by regenerated constants + structural flags of "
              "icmp_forwarder.rs, a differential run of the real codecs/parsers, and live loopback scenarios of the real IcmpForwarder "
-             "on raw sockets compared with the proven model",
+             "on raw sockets compared with the proven model; the reply-waiter table is a HashMap: theorem hashmap_lookup_is_key_equality (with the regenerated hash fact) and a lookup door on a real HashMap show that a truncated quotation still finds its waiter",
         note="trusted: Coq kernel, models Model/Icmp.v + Model/IcmpWaiters.v, translator (constants, type ids, waiter-code flags), "
              "extraction + driver, harness doors verif::icmp / verif::icmp_live; kernel ICMP behaviour is environment (live runs are "
              "skipped, never failed, when raw sockets are unavailable); one known finding (shared identifier across clients)",
@@ -55,7 +55,7 @@ CLAIMED["C15"] = dict(
          "fields fail unwritten, the tunnel proceeds only after an offered method and success replies, UDP header wrap/unwrap round "
          "trip and totality, credentials split at the first colon (with a proven base64 round trip); tied by constants/flags from the "
          "translator and a differential run of the real socks5_client::connect over an in-memory duplex against a scripted server "
-         "(all selections, statuses, reply codes, truncation at every byte, segmentations), with the grammar as oracle on the real bytes",
+         "(all selections, statuses, reply codes, truncation at every byte, segmentations), with the grammar as oracle on the real bytes; the stream handed on after a successful CONNECT starts exactly behind the server's reply (theorem tunnel_stream_follows_the_reply; the door returns the stream, every cut inside the reply is exercised)",
     note="trusted: Coq kernel, Model/Socks5.v, Spec/Rfc1928.v, Lib/Base64.v + Lib/Utf8.v (models of the base64 crate / from_utf8), "
          "translator, extraction + driver, harness doors verif::socks",
     design="DESIGN.md 5 C15")
@@ -101,7 +101,7 @@ CLAIMED["C14"] = dict(
          "connection_establishment_timeout -> 502/302, TLS accept under tls_handshake_timeout). Tied by the differential run of the "
          "real DuplexPipe under the paused clock on activity patterns around T (incl. exact ties) with direct 'not before T, not "
          "after 2T' oracles; the session-level timer (client_listener_timeout) is modelled in Listener.v: closed by it only with no request in service, "
-         "idle sessions closed; tied by a fact and by real sessions with a tunnel transferring under a short listener timeout",
+         "idle sessions closed; tied by a fact and by real sessions with a tunnel transferring under a short listener timeout; real-stack scenarios: CONNECT to a listener that never answers (establishment timeout, theorem establishment_settled_by_its_own_timeout) and the real listener's timers (silent TCP connection, half a ClientHello, completed handshake without a request)",
     note="partial: tokio's timer is modelled as exact (a late timer only delays a close); establishment/handshake timeouts are not "
          "driven here (C10 drives the 502/302 path); trusted as for C02",
     design="DESIGN.md 5 C14")
@@ -114,7 +114,7 @@ CLAIMED["C07"] = dict(
          "the timeout, an answered port-53 flow is released on both sides, a released pair starts a fresh flow on a fresh socket, and "
          "any per-flow event leaves all other flows' entries untouched. Tied by translator facts (UdpFacts.v) and by the differential "
          "run of the real multiplexer on loopback UDP sockets in real time (echo servers, closed port, unconnectable address, expiry, "
-         "reuse) with direct oracles",
+         "reuse) with direct oracles; a scripted read-side socket error on the single-threaded runtime (peer answers and leaves, client sends once more): a later datagram on the pair gets through and every socket is released",
     note="partial: sockets, ICMP errors and time are environment operations of the model; idle times are kept 150 ms away from the "
          "window in which the tick phase decides; the SOCKS5 UDP forwarder's table (socks5_forwarder.rs) is tied by the "
          "on_connection_closed orientation fact only; trusted: Coq kernel, Model/UdpFlows.v, translator facts, extraction + driver, "
@@ -143,7 +143,7 @@ CLAIMED["C17"] = dict(
          "yields the concatenated data and the end of body), delivers exactly n bytes for Content-Length n and everything for "
          "close-delimited bodies; the model's hex/extension parser is proved to meet the hypotheses. Tied by translator facts "
          "(ForwardedFacts.v) and by the differential run of the real into_forwarded pair + real DuplexPipe against an independent oracle for "
-         "request serialization, hop-by-hop filtering, interim responses, bodiless statuses and bodies",
+         "request serialization, hop-by-hop filtering, interim responses, bodiless statuses and bodies; 48+ exchanges through the real endpoint (Core::listen): real HTTP/2-over-TLS and HTTP/3-over-QUIC clients against a scripted origin on loopback, same oracle",
     note="partial: response-head parsing, request serialization and header filtering are checked by the differential run only; "
          "httparse::parse_chunk_size is a parameter; known finding h2-request-body-unframed; trusted: Coq kernel, Model/Forwarded.v, "
          "translator facts, extraction + driver, harness door verif::forwarded",
@@ -157,7 +157,7 @@ CLAIMED["C01"] = dict(
          "connection with rejected SNI credentials serves nothing; the answer to a request equals the answer it gets alone (per-request "
          "decision); the registry accepts exactly base64(user:password) of configured pairs and no SNI credentials. Tied by translator "
          "facts (GateFacts.v) and by whole sessions of the real HttpDownstream + Tunnel + DirectForwarder over in-memory transports with "
-         "real HTTP/1.1 bytes and a real h2 client against canary TCP/UDP listeners (egress observed, not inferred)",
+         "real HTTP/1.1 bytes and a real h2 client against canary TCP/UDP listeners (egress observed, not inferred); the same sessions are repeated through the endpoint's real listener (Core::listen on a loopback port): HTTP/1.1 and HTTP/2 over real TLS, HTTP/3 over real QUIC (quiche client)",
     note="partial: HTTP/3 is covered through the shared Stream/Tunnel code only (no QUIC transport in the harness); ICMP egress is not "
          "observable without raw sockets in the session context; trusted: Coq kernel, Model/TunnelGate.v, translator facts, extraction + "
          "driver, harness door verif::session",
@@ -171,7 +171,7 @@ CLAIMED["C10"] = dict(
          "methods on them are 502 without traffic, any other spelling is an ordinary destination); CONNECT without a port is refused "
          "before any attempt. Tied by translator facts (dispatch arms, constants, warning table arm by arm) and by sessions of the real "
          "stack over HTTP/1.1 and HTTP/2 against destinations of chosen outcome (accept, refused, full accept queue -> timeout, "
-         "unresolvable, private/loopback literals with private connections disallowed), counting final responses per request",
+         "unresolvable, private/loopback literals with private connections disallowed), counting final responses per request; the response table is repeated through the real listener over TLS (HTTP/1.1, HTTP/2) and QUIC (HTTP/3), including destinations the kernel refuses with ENETUNREACH",
     note="partial: ENETUNREACH/EHOSTUNREACH (301) and descriptor exhaustion cannot be provoked in the sandbox; 'exactly one response' "
          "is a construction property of the model (one answer per request) observed on the real stack by counting response heads; "
          "trusted as for C01",
@@ -223,7 +223,7 @@ CLAIMED["C19"] = dict(
          "was started and every participant holding a guard has finished (never earlier, nothing more needed); a participant is awaited "
          "iff it registered before completion began. Tied by translator facts (channel construction, submit/completion/guard/wait shapes, "
          "every listener/tunnel/handler registers both halves under one lock and winds down gracefully) and by scripted interleavings on "
-         "the real Shutdown with the coordinator holding the lock as main.rs does",
+         "the real Shutdown with the coordinator holding the lock as main.rs does; the real endpoint with live sessions of every transport (HTTP/1.1 tunnel, HTTP/2 stream, HTTP/3 stream, idle connections): submission, goodbye seen by each client (close, GOAWAY, QUIC close), completion after the last; theorem notified_session_says_goodbye for the race between the listener and a QUIC session",
     note="partial: the codecs' graceful wind-down effects (GOAWAY, QUIC close) are structural facts only; known finding "
          "completion-awaited-under-the-lock; trusted: Coq kernel, Model/ShutdownM.v, translator facts, tokio channels, extraction + "
          "driver, harness door verif::shutdown",
